@@ -19,6 +19,8 @@ pub fn cov_alphabet(name: &str) -> Vec<(f64, f64)> {
         "anticollinear" => vec![(-1., 2.), (0., 1.), (0.5, 0.5), (3., -2.)],
         "off" => vec![(1e9 - 3., -1e6 + 0.5), (1e9 + 4., -1e6 - 2.), (1e9 + 7., -1e6 + 3.), (1e9 + 13., -1e6)],
         "mixedmag" => vec![(1e-30, 1e30), (-1e-30, 1.), (0., -1e30), (1., 0.)],
+        // nearly but not exactly collinear: |r| within 1e-8 of 1 and different from 1
+        "nearcollinear" => vec![(0., 0.), (1., 1.), (2., 2.), (3., 3. + 1. / 4096.), (-1., -1. - 1. / 8192.)],
         _ => panic!("unknown cov alphabet {name}"),
     };
     if name.ends_with("-swapped") {
@@ -165,7 +167,7 @@ fn trees(alpha: &str, max_len: usize) -> Box<dyn Check> {
 pub fn plan(tier: Tier) -> Plan {
     let q = tier == Tier::Quick;
     let mut checks: Vec<Box<dyn Check>> = Vec::new();
-    for a in ["corr", "collinear", "anticollinear", "off", "mixedmag", "corr-swapped", "off-swapped", "mixedmag-swapped", "collinear-swapped"] {
+    for a in ["corr", "collinear", "anticollinear", "nearcollinear", "off", "mixedmag", "corr-swapped", "off-swapped", "mixedmag-swapped", "collinear-swapped", "nearcollinear-swapped"] {
         checks.push(add(a, if q { 6 } else { 8 }));
     }
     for a in ["corr", "collinear", "anticollinear", "off", "mixedmag", "corr-swapped", "off-swapped"] {
